@@ -54,7 +54,11 @@ CHECKS = {
            "modelled and tied by ~6*10^5 cases through RawMessage: proved complete (every value of that language is stepped over exactly, so a valid "
            "document is never refused or read differently because a part is skipped) and proved unsound by a witness (finding SkipUnvalidated as a "
            "theorem). Partial: the stream decoder and the other typed decoders are not modelled; their recorded leniencies are open findings. "
-           "The number recogniser is TRANSLATED on every run from internal/encoder/compact.go and internal/decoder/number.go into a small scanner language (Base/ScanProg.v) and the translated program is proved, by symbolic execution, to return for EVERY byte string whether it is an RFC 8259 number (never a read beyond the slice, never a loop without progress)."),
+           "The number recogniser is TRANSLATED on every run from internal/encoder/compact.go and internal/decoder/number.go into a small scanner language (Base/ScanProg.v) and the translated program is proved, by symbolic execution, to return for EVERY byte string whether it is an RFC 8259 number (never a read beyond the slice, never a loop without progress)."
+           " skipString and validateTrue / validateFalse / validateNull of internal/decoder/context.go are TRANSLATED statement by statement into a cursor language (Base/CurProg.v: "
+           "cursor += k, if, both kinds of switch, for { }, the counted hex loop unrolled, return cursor+k / error; reading past the buffer = Stuck) and proved, by symbolic "
+           "execution of its interpreter, to return for EVERY buffer exactly where the model's string recogniser ends / whether the whole literal stands there -- no hand-written link between "
+           "these functions and the model."),
   'note': TB + " Oracle parameter: float_in_range (strconv.ParseFloat's range verdict) is a function parameter of the model, not an axiom.",
   'technique': 'Coq proof (acceptor model = limited RFC 8259 grammar on all inputs) + correspondence + exhaustive small-scope differential search',
  },
